@@ -222,18 +222,35 @@ func (c *Ctx) adminRequestFresh() {
 // into "503 while healthy".
 func (c *Ctx) healthyPickIsTaken() {
 	p := c.P
-	fn := p.Fn("internal/loadbalancer", "LoadBalancer", "findHealthyBackend")
+	// the function that asks the strategy and re-checks the proposal (findHealthyBackend, whatever it
+	// is called, or the function it was inlined into): it calls both NextBackend and IsBackendHealthy
 	construct := "loadbalancer.(*LoadBalancer).findHealthyBackend"
-	if fn == nil {
-		// inlined into its caller
-		fn = p.Fn("internal/loadbalancer", "LoadBalancer", "handleRequest")
-		construct = "loadbalancer.(*LoadBalancer).handleRequest/pick"
+	var fn *ssa.Function
+	for _, f := range p.Funcs {
+		pk := fnPkg(f)
+		if pk == nil || !strings.HasSuffix(pk.Pkg.Path(), "/internal/loadbalancer") || f.Parent() != nil {
+			continue
+		}
+		picks, checks := false, false
+		for _, ci := range callsIn(f) {
+			n := CalleeName(ci)
+			if strings.HasSuffix(n, "LoadBalancer).NextBackend") {
+				picks = true
+			}
+			if strings.HasSuffix(n, "LoadBalancer).IsBackendHealthy") {
+				checks = true
+			}
+		}
+		if picks && checks && (fn == nil || len(f.Blocks) < len(fn.Blocks)) {
+			fn = f
+		}
 	}
+	proxy := c.proxyFn()
 	sp := &Spec{
 		Event: func(in ssa.Instruction, fr *Frame) string {
 			if ci, ok := in.(ssa.CallInstruction); ok {
 				n := CalleeName(ci)
-				if strings.HasSuffix(n, "LoadBalancer).proxyRequest") {
+				if strings.HasSuffix(n, "LoadBalancer).proxyRequest") || (proxy != nil && StaticFn(ci) == proxy) {
 					return "dispatch"
 				}
 				if strings.HasSuffix(n, "LoadBalancer).NextBackend") {
@@ -334,4 +351,53 @@ func (c *Ctx) configuredNameHonoured() {
 		}
 	}
 	c.Floor("configured-name-honoured", n, 2, "header-name functions")
+}
+
+// idHeaderNamesValidated: the request/trace ID header names are added to every proxied request.  A
+// configured name that is not an HTTP field name ("X Request ID") makes the backend transport refuse
+// the request — every request answered 502 by an accepted configuration.  Validation has to look at
+// both names and be able to refuse them: in the configuration package some test derived from each
+// field leads to an error return.
+func (c *Ctx) idHeaderNamesValidated() {
+	p := c.P
+	rule := "id-header-name-validated"
+	n := 0
+	for _, field := range []string{"config.RequestIDConfig.Header", "config.TraceConfig.Header"} {
+		n++
+		refused := false
+		pos := "-"
+		for _, fn := range p.Funcs {
+			pk := fnPkg(fn)
+			if pk == nil || !strings.HasSuffix(pk.Pkg.Path(), "/internal/config") {
+				continue
+			}
+			instrsOf(fn, func(in ssa.Instruction) {
+				ifi, ok := in.(*ssa.If)
+				if !ok || refused {
+					return
+				}
+				fromField := c.flowsFrom(ifi.Cond, func(v ssa.Value) bool {
+					if u, isU := v.(*ssa.UnOp); isU {
+						v = u.X
+					}
+					fr, ok := fieldRefOf(v)
+					return ok && fr.Key() == field
+				})
+				if !fromField {
+					return
+				}
+				for _, s := range ifi.Block().Succs {
+					for _, in2 := range s.Instrs {
+						if ret, isRet := in2.(*ssa.Return); isRet && len(ret.Results) > 0 && !isConstNil(ret.Results[len(ret.Results)-1]) {
+							refused = true
+							pos = p.InstrPos(ifi)
+						}
+					}
+				}
+			})
+		}
+		c.Check(refused, rule, field, pos, "validation tests the name and can refuse it",
+			field+" is added to every proxied request as a header name and validation never looks at it: a name that is not an HTTP field name (\"X Request ID\") is accepted, the backend transport refuses every request that carries it, and the proxy answers 502 to everything")
+	}
+	c.Floor(rule, n, 2, "ID header names")
 }
